@@ -9,7 +9,8 @@ ENTRY = {'coq_dir': 'C13',
          'estimate of connections, open commands, carriers and waiting inbound requests so that most stimuli hit), the rest in four random '
          'styles (outbound-, dial-, inbound-heavy, uniform): send_request with Dial/Reject, cancel_request, '
          'send_response/send_response_with_feedback/reject_request, ConnectionEstablished (also with a dead command '
-         'channel)/ConnectionClosed/DialFailure/SubstreamOpened/SubstreamOpenFailure in any order, carriers that block, accept or fail '
+         'channel, or one with room for only k substream-open commands so that open_substream succeeds for the first k requests queued '
+         'behind the dial and fails for the others)/ConnectionClosed/DialFailure/SubstreamOpened/SubstreamOpenFailure in any order, carriers that block, accept or fail '
          'writes, remote responses/EOF/reset, clock advances across the request timeout, inbound substreams with and without a bound (also '
          'several request frames on one inbound substream), payload lengths {0,1,2,7,max-1,max,max+1}; the real RequestResponseProtocol '
          'over a real TransportService is single-stepped until idle after every stimulus, and the user-visible events, the frames that '
